@@ -26,6 +26,12 @@ func classReps(mag int, prec uint32, mode uint8) []*Opnd {
 		fin = mkWords(false, []uint64{BW / 2, 0, BW - 2}, -25, 0, mode)
 	case 3:
 		fin = mkInt64(15, 0, prec, mode) // perfect-square friendly small value 15 → 1.5e1
+	case 4: // at the top of the exponent range: products and sums overflow
+		fin = mkInt64(7, 0, prec, mode)
+		fin.Exp, fin.V.E10 = MaxExp, MaxExp-DW
+	case 5: // at the bottom of the exponent range: products and quotients underflow
+		fin = mkInt64(7, 0, prec, mode)
+		fin.Exp, fin.V.E10 = MinExp, MinExp-DW
 	}
 	if prec != 0 && fin.Prec < prec {
 		fin.Prec = prec
@@ -37,6 +43,9 @@ func classReps(mag int, prec uint32, mode uint8) []*Opnd {
 		mkSpecial(fZero, false, prec, mode), fin, mkSpecial(fInf, false, prec, mode),
 	}
 }
+
+// histories given to special operands in P1 (indices into staleKinds)
+var p1Stale = []int8{0, 1, 3}
 
 var classNames = []string{"-Inf", "-fin", "-0", "+0", "+fin", "+Inf"}
 
@@ -54,10 +63,48 @@ func effPrec(op int, zprec uint32, vals []*Opnd) uint32 {
 }
 
 func specialCase(c *Ctx, op int, vals []*Opnd, zprec uint32, mode uint8, pre int, tag string) {
+	spec := opSpecs[op]
+	part := make([]int, spec.Arity+1)
+	for i := range part {
+		part[i] = i
+	}
+	specialCasePart(c, op, part, vals, zprec, mode, pre, tag)
+}
+
+// specialCasePart: as specialCase under an aliasing partition of {z, operands}
+// (operands in one class must be the same description; an operand aliased to
+// the receiver takes the receiver's precision and mode).
+func specialCasePart(c *Ctx, op int, part []int, vals0 []*Opnd, zprec uint32, mode uint8, pre int, tag string) {
 	if c.Skip() {
 		return
 	}
 	spec := opSpecs[op]
+	vals := vals0
+	identity := true
+	for i := 1; i <= spec.Arity; i++ {
+		if part[i] != i {
+			identity = false
+		}
+	}
+	if !identity {
+		vals = make([]*Opnd, len(vals0))
+		for i := range vals0 {
+			v := *vals0[i]
+			if part[i+1] == 0 {
+				v.Prec, v.Mode = zprec, mode
+			}
+			vals[i] = &v
+		}
+		// every member of a class carries the description of the class's first member
+		for i := range vals {
+			for k := 0; k < i; k++ {
+				if part[k+1] == part[i+1] {
+					vals[i] = vals[k]
+					break
+				}
+			}
+		}
+	}
 	ep := effPrec(op, zprec, vals)
 	var exp RRes
 	allSpecial := true
@@ -73,14 +120,14 @@ func specialCase(c *Ctx, op int, vals []*Opnd, zprec uint32, mode uint8, pre int
 		ep = 1 // irrelevant: no finite value is rounded
 	}
 	exp = spec.Model(valsOf(vals), ep, mode)
-	part := make([]int, spec.Arity+1)
-	for i := range part {
-		part[i] = i
-	}
 	o, pv, isNaN, after, _ := execPart(spec, part, vals, zprec, mode, pre)
 	c.Outcome(o.Hash() ^ b2u(pv != nil))
 	key := func() string {
-		return fmt.Sprintf("%s %s zprec=%d mode=%s pre=%s %s", spec.Name, opndsString(vals), zprec, modeName(mode), preNames[pre], tag)
+		al := ""
+		if !identity {
+			al = " alias=" + partString(part)
+		}
+		return fmt.Sprintf("%s %s%s zprec=%d mode=%s pre=%s %s", spec.Name, opndsString(vals), al, zprec, modeName(mode), preNames[pre], tag)
 	}
 	if exp.NaN {
 		c.NonTrivial()
@@ -104,6 +151,9 @@ func specialCase(c *Ctx, op int, vals []*Opnd, zprec uint32, mode uint8, pre int
 		c.Fail(key(), msg)
 	}
 	for i, a := range after {
+		if part[i+1] == 0 {
+			continue // the operand is the receiver
+		}
 		if msg := vals[i].CheckBuilt2(a); msg != "" {
 			c.Fail(key()+" operand", msg)
 		}
@@ -130,11 +180,12 @@ func specialLayers(tier string) []Layer {
 	ops := []int{opAdd, opSub, opMul, opQuo, opFMA, opSqrt, opSet, opNeg, opAbs}
 	layers = append(layers, Layer{
 		Name:   "P1-classes",
-		Units:  len(ops) * 4,
-		Bounds: "operations {Add,Sub,Mul,Quo,FMA,Sqrt,Set,Neg,Abs} × operand classes {-Inf,-finite,-0,+0,+finite,+Inf}^arity × 4 finite magnitudes (1 digit, 1 word, 3 words, 2 digits) × receiver precision {0,3,40} × 6 modes × receiver pre-states {fresh, held-longer, -Inf, negative-inexact}",
+		Units:  len(ops) * 6,
+		Bounds: "operations {Add,Sub,Mul,Quo,FMA,Sqrt,Set,Neg,Abs} × operand classes {-Inf,-finite,-0,+0,+finite,+Inf}^arity × 6 finite magnitudes (1 digit, 1 word, 3 words, 2 digits, 7×10^(MaxExp−1), 7×10^(MinExp−1); for the last two FMA with three finite operands is left to C03) × receiver precision {0,3,40} × 6 modes × receiver pre-states {fresh, held-longer, -Inf, negative-inexact} × every aliasing partition of {z, operands} the values allow × history of each special operand {never held a finite value, held 1, held a 3-word value}",
 		Run: func(c *Ctx, u int) {
-			op, mag := ops[u/4], u%4
+			op, mag := ops[u/6], u%6
 			spec := opSpecs[op]
+			parts := partitions(spec.Arity)
 			for _, zp := range []uint32{0, 3, 40} {
 				for _, m := range M6 {
 					reps := classReps(mag, 9, (m+2)%6)
@@ -144,8 +195,56 @@ func specialLayers(tier string) []Layer {
 						for i := range vals {
 							vals[i] = reps[idx[i]]
 						}
-						for _, pre := range []int{preFresh, preLonger, preNegInf, preInexact} {
-							specialCase(c, op, vals, zp, m, pre, "")
+						// histories of the special operands: never held a finite value / held 1 / held a 3-word value
+						sk := make([]int, spec.Arity)
+						for {
+							sv := make([]*Opnd, spec.Arity)
+							for i := range sv {
+								sv[i] = vals[i].withStale(p1Stale[sk[i]])
+							}
+							if op == opFMA && mag >= 4 && sv[0].Form == fFinite && sv[1].Form == fFinite && sv[2].Form == fFinite {
+								break // finite x·y+u with the product outside the exponent range: value question, C03's subject (recorded finding)
+							}
+							for _, part := range parts {
+								ok, aliased := true, false
+								for i := 1; i <= spec.Arity && ok; i++ {
+									if part[i] == 0 {
+										aliased = true
+										if sv[i-1].Form == fFinite && (zp == 0 || int64(zp) < minPrecWords(sv[i-1].Words)) {
+											ok = false // the receiver cannot hold this operand
+										}
+									}
+									for k := 1; k < i; k++ {
+										if part[k] == part[i] && (idx[k-1] != idx[i-1] || sk[k-1] != sk[i-1]) {
+											ok = false // one variable, one value
+										}
+									}
+								}
+								if !ok {
+									continue
+								}
+								if aliased {
+									specialCasePart(c, op, part, sv, zp, m, preFresh, "")
+									continue
+								}
+								for _, pre := range []int{preFresh, preLonger, preNegInf, preInexact} {
+									specialCasePart(c, op, part, sv, zp, m, pre, "")
+								}
+							}
+							k := 0
+							for ; k < spec.Arity; k++ {
+								if sv[k].Form == fFinite {
+									continue
+								}
+								sk[k]++
+								if sk[k] < len(p1Stale) {
+									break
+								}
+								sk[k] = 0
+							}
+							if k == spec.Arity {
+								break
+							}
 						}
 						i := 0
 						for ; i < spec.Arity; i++ {
